@@ -299,6 +299,13 @@ class Rig:
         self.inv = W.FAMILIES[family]('10.0.0.2', port, 0, T, R)
         self.inv.set_keep_alive(ka)
 
+    def newloop(self):
+        """What successive asyncio.run() calls do to a long-lived inverter object: the loop of the previous call is shut
+        down and closed, the next call runs on a new one (same kernel model, same device)."""
+        from .kernel import KLoop
+        self.loop.shutdown_like_asyncio_run()
+        self.loop = KLoop(kern=self.loop.kern)
+
     def call(self, fn, *a, **kw):
         async def w():
             try:
